@@ -40,6 +40,10 @@ impl Connection {
     #[verifier::external_body] pub fn peer_id(&self) -> (r: PeerId) ensures r == self.peer { unimplemented!() }
     #[verifier::external_body] pub fn origin(&self) -> (r: ConnectionOrigin) ensures r == self.orig { unimplemented!() }
     #[verifier::external_body] pub fn remote_address(&self) -> (r: SocketAddr) ensures r.a == self.addr { unimplemented!() }
+    // (observers of the connection an edit may reach for; whatever they answer, the obligations around them have to hold)
+    #[verifier::external_body] pub fn is_closed(&self) -> (r: bool) { unimplemented!() }
+    #[verifier::external_body] pub fn stable_id(&self) -> (r: usize) { unimplemented!() }
+    #[verifier::external_body] pub fn close(&self) { unimplemented!() }
     // one call opens ONE stream and returns its two halves
     #[verifier::external_body]
     pub async fn open_bi(&self) -> (r: Result<(SendStream, RecvStream)>)
